@@ -58,6 +58,14 @@ theorem fixed_width_roundtrip (v l : Nat) (hv : v < 2 ^ 64) (hl : uint64Length v
 
 example : unmarshalUint64 3 (marshalUint64 70000 3 ++ [9]) = some 70000 := by decide
 
+/-- …in particular at the width `ByteArraysBuilder` itself chooses, `Uint64Length(v)` — every `uint64`. -/
+theorem fixed_width_roundtrip_at_own_length (v : Nat) (hv : v < 2 ^ 64) (rest : Bytes) :
+    unmarshalUint64 (uint64Length v) (marshalUint64 v (uint64Length v) ++ rest) = some v :=
+  unmarshal_marshalUint64_append v _ hv (Nat.le_refl _) rest
+
+example : unmarshalUint64 (uint64Length 4294967296) (marshalUint64 4294967296 (uint64Length 4294967296))
+    = some 4294967296 := by decide
+
 /-- too few bytes lose the value — the hypothesis `Uint64Length v ≤ l` is needed. -/
 theorem fixed_width_short_counterexample : unmarshalUint64 1 (marshalUint64 256 1) ≠ some 256 := by decide
 
@@ -87,6 +95,13 @@ theorem bytearrays_read (res : List Nat) (D : Bytes) (i : Nat)
     (hD : (res.take (i + 1)).sum ≤ D.length) :
     baItem (baHeader res ++ D) i = some ((D.drop (res.take i).sum).take res[i]) :=
   B6.Lemmas.Containers.bytearrays_read res D i hn ht hi hD
+
+/-- the pointer table: entry `k` of the header written for reservations `res` reads back as the `k`-th
+running sum (so the last entry is the total, whatever pointer width the total needs). -/
+theorem bytearrays_layout (res : List Nat) (D : Bytes) (k : Nat) (ht : res.sum < 2 ^ 64) (hk : k ≤ res.length) :
+    (goFrom (baHeader res ++ D) (baLayoutLength + uint64Length (total res) * k)).bind
+      (unmarshalUint64 (uint64Length (total res))) = some (res.take k).sum :=
+  read_pointer res D k ht hk
 
 /-! ## string table -/
 
